@@ -15,6 +15,8 @@ import (
 	"context"
 	"encoding/json"
 	"fmt"
+	"reflect"
+	"strings"
 	"sync"
 	"testing"
 	"time"
@@ -23,7 +25,7 @@ import (
 )
 
 type c07Sub struct {
-	Type     string `json:"type"` // item | int | str
+	Type     string `json:"type"` // item | int | str | rich (optional fields, map, slice, pointer) | nan (floats, one of them NaN)
 	N        int    `json:"n"`
 	Early    int    `json:"early"`
 	Pad      int    `json:"pad,omitempty"`
@@ -88,6 +90,48 @@ func (s c07Sub) open(cl *RigClient, ctx context.Context, tok string) (*anyStream
 			}
 		}}, nil
 	}
+	if s.Type == "rich" {
+		ch, err := cl.C.SubRich(ctx, tok, plan)
+		if err != nil {
+			return nil, err
+		}
+		return &anyStream{recv: func(d time.Duration) (int, bool, bool, bool, string) {
+			select {
+			case v, ok := <-ch:
+				if !ok {
+					return 0, false, true, false, ""
+				}
+				// compared when received AND kept for a second comparison later: state bleeding into elements that
+				// were already delivered shows up in the retained copies
+				return v.Seq, reflect.DeepEqual(v, RichItem(tok, v.Seq)), false, false, fmt.Sprintf("%+v", v)
+			case <-time.After(d):
+				return 0, false, false, true, ""
+			}
+		}}, nil
+	}
+	if s.Type == "nan" {
+		plan.NaNAt = s.N / 2
+		ch, err := cl.C.SubFloat(ctx, tok, plan)
+		if err != nil {
+			return nil, err
+		}
+		skipped := false
+		return &anyStream{recv: func(d time.Duration) (int, bool, bool, bool, string) {
+			select {
+			case v, ok := <-ch:
+				if !ok {
+					return 0, false, true, false, ""
+				}
+				seq := int(v)
+				if seq > plan.NaNAt && !skipped {
+					skipped = true
+				}
+				return seq, v == float64(seq)+0.5, false, false, fmt.Sprint(v)
+			case <-time.After(d):
+				return 0, false, false, true, ""
+			}
+		}}, nil
+	}
 	ch, err := cl.C.Sub(ctx, tok, plan)
 	if err != nil {
 		return nil, err
@@ -107,12 +151,23 @@ func (s c07Sub) open(cl *RigClient, ctx context.Context, tok string) (*anyStream
 
 // consume reads the stream to its close and checks order / completeness.
 func consumeStream(st *anyStream, tok string, n int, slow bool, budget time.Duration) *Violation {
+	return consumeStreamSkipping(st, tok, n, slow, budget, -1)
+}
+
+// consumeStreamSkipping tolerates the absence of element `skip` (a value that cannot be encoded cannot travel).
+func consumeStreamSkipping(st *anyStream, tok string, n int, slow bool, budget time.Duration, skip int) *Violation {
 	deadline := time.Now().Add(budget)
 	next := 0
 	for {
 		seq, good, closed, timedOut, raw := st.recv(time.Until(deadline))
 		if timedOut {
 			return violf("stream-stalled", "stream %s delivered %d of %d values and then nothing for the rest of %v", tok, next, n, budget)
+		}
+		if next == skip && !closed && !timedOut && seq == skip+1 {
+			next++ // the unencodable element was dropped, the stream goes on
+		}
+		if closed && next == skip && skip == n-1 {
+			next++
 		}
 		if closed {
 			if next != n {
@@ -194,7 +249,11 @@ func runC07(c c07Case) (*Violation, string) {
 			if s.Consumer == "resume" {
 				time.Sleep(30 * time.Millisecond)
 			}
-			s.v = consumeStream(s.st, s.tok, s.N, s.Consumer == "slow", 8*time.Second)
+			skip := -1
+			if s.Type == "nan" {
+				skip = s.N / 2
+			}
+			s.v = consumeStreamSkipping(s.st, s.tok, s.N, s.Consumer == "slow", 8*time.Second, skip)
 		}(s)
 	}
 	// unary calls interleaved with the streams must not be blocked by any consumer
@@ -251,7 +310,11 @@ func runC07(c c07Case) (*Violation, string) {
 	// the stalled consumers' values were buffered, not dropped
 	for _, s := range subs {
 		if s.Consumer == "stalled" {
-			if v := consumeStream(s.st, s.tok, s.N, false, 8*time.Second); v != nil {
+			skip := -1
+			if s.Type == "nan" {
+				skip = s.N / 2
+			}
+			if v := consumeStreamSkipping(s.st, s.tok, s.N, false, 8*time.Second, skip); v != nil {
 				return v, ""
 			}
 		}
@@ -268,7 +331,7 @@ func runC07(c c07Case) (*Violation, string) {
 		if m.Opcode != 1 || m.Dir != "c2s" || json.Unmarshal(m.Payload, &r) != nil {
 			continue
 		}
-		if r.Method == "Tok.Sub" || r.Method == "Tok.SubInt" || r.Method == "Tok.SubStr" {
+		if strings.HasPrefix(r.Method, "Tok.Sub") {
 			var tok string
 			if len(r.Params) > 0 {
 				_ = json.Unmarshal(r.Params[0], &tok)
@@ -355,7 +418,7 @@ func TestC07(t *testing.T) {
 	rec := NewRec("C07", c07Rule)
 	defer rec.Finish(t)
 	rec.EnableJournal()
-	rec.RequireClass("len_gt_8k", "len_gt_32", "len_0", "early_send", "consumer_stalled", "consumer_resume", "consumer_slow", "type_int", "type_str", "with_delays", "with_unary", "nsubs_3")
+	rec.RequireClass("type_rich", "type_nan", "len_gt_8k", "len_gt_32", "len_0", "early_send", "consumer_stalled", "consumer_resume", "consumer_slow", "type_int", "type_str", "with_delays", "with_unary", "nsubs_3")
 	run := func(ft failer, c c07Case) {
 		nt, cl := c07NT(c)
 		rec.Run(ft, c, nt, cl, func() *Violation {
@@ -383,6 +446,9 @@ func TestC07(t *testing.T) {
 		}
 		// a backlog far beyond any internal buffer: 12000 unread values, then other traffic on the same connection
 		run(t, c07Case{Subs: []c07Sub{{Type: "int", N: 12000, Consumer: "stalled"}, {Type: "item", N: 20, Consumer: "eager"}}, Unary: 3, Late: 3})
+		for _, cons := range []string{"eager", "resume", "stalled"} {
+			run(t, c07Case{Subs: []c07Sub{{Type: "rich", N: 40, Early: 3, Consumer: cons}, {Type: "nan", N: 9, Consumer: "eager"}, {Type: "item", N: 50, Consumer: "eager"}, {Type: "rich", N: 13, Consumer: "slow"}}, Unary: 2, Late: 1})
+		}
 		for _, cons := range []string{"stalled", "resume", "slow"} {
 			run(t, c07Case{Subs: []c07Sub{{Type: "item", N: 300, Consumer: cons}, {Type: "int", N: 40, Early: 2, Consumer: "eager"}, {Type: "str", N: 33, Consumer: "eager"}}, Unary: 4})
 		}
@@ -392,7 +458,7 @@ func TestC07(t *testing.T) {
 		ns := rapid.IntRange(1, 5).Draw(rt, "nsubs")
 		for i := 0; i < ns; i++ {
 			l := fmt.Sprintf("s%d_", i)
-			s := c07Sub{Type: rapid.SampledFrom([]string{"item", "item", "int", "str"}).Draw(rt, l+"type"), Consumer: rapid.SampledFrom([]string{"eager", "eager", "slow", "resume", "stalled"}).Draw(rt, l+"consumer")}
+			s := c07Sub{Type: rapid.SampledFrom([]string{"item", "item", "int", "str", "rich", "rich", "nan"}).Draw(rt, l+"type"), Consumer: rapid.SampledFrom([]string{"eager", "eager", "slow", "resume", "stalled"}).Draw(rt, l+"consumer")}
 			if rapid.IntRange(0, 3).Draw(rt, l+"lenkind") == 0 {
 				s.N = rapid.IntRange(0, 400).Draw(rt, l+"lenr")
 			} else {
